@@ -31,19 +31,37 @@ def _misspell(rng, name):
     return name.rsplit(".", 1)[0] + ".nosuch" if "." in name else name + "q"
 
 
+def _batch(rng, pool, mods, k):
+    """k distinct names from `pool`; half of the batches are *related* (a module together with
+    modules below it), the combination in which set order and list order matter most."""
+    k = min(k, len(pool))
+    if k >= 2 and rng.random() < 0.5:
+        tops = [p for p in pool if any(m.startswith(p + ".") for m in mods)]
+        if tops:
+            top = W.pick(rng, tops)
+            below = [m for m in (pool if rng.random() < 0.6 else mods) if m.startswith(top + ".")]
+            vals = [top] + rng.sample(below, min(k - 1, len(below)))
+            rest = [p for p in pool if p not in vals]
+            while len(vals) < k and rest:
+                vals.append(rest.pop(rng.randrange(len(rest))))
+            rng.shuffle(vals)
+            return vals
+    return rng.sample(pool, k)
+
+
 def _gen_filter(rng, modules, unknown_rate, allow_batch=True):
     """{'f': method, 'v': [values]} drawn from the predicted modules of the target cfg."""
     mods = [m for m in modules if not m.endswith("__init__")] or list(modules)
     r = rng.random()
     if r < 0.55:
         k = 1 if not allow_batch or rng.random() < 0.6 else rng.randint(2, 3)
-        vals = rng.sample(mods, min(k, len(mods)))
+        vals = _batch(rng, mods, mods, k)
         vals = [_misspell(rng, v) if rng.random() < unknown_rate else v for v in vals]
         return {"f": "are_named", "v": vals}
     if r < 0.72:
         parents = sorted({m.rsplit(".", 1)[0] for m in mods if "." in m}) or mods
-        k = 1 if not allow_batch or rng.random() < 0.7 else 2
-        vals = rng.sample(parents, min(k, len(parents)))
+        k = 1 if not allow_batch or rng.random() < 0.6 else rng.randint(2, 3)
+        vals = _batch(rng, parents, mods, k)
         vals = [_misspell(rng, v) if rng.random() < unknown_rate else v for v in vals]
         return {"f": "are_sub_modules_of", "v": vals}
     if r < 0.9:
